@@ -154,7 +154,7 @@ def run_priority(F, rep):
             npri += 1
             rep.check(okp, "PRIORITY-stack-first", "%s:%s" % (name, rng[-40:]), where,
                       "the heap buffer is selected for range %s without first failing the `end <= stack.len()` test of that range" % rng)
-    rep.floor("PRIORITY-stack-first", "heap dispatch guards", npri, 5)
+    rep.floor("PRIORITY-stack-first", "heap dispatch guards", npri, 3)
 
 
 
